@@ -87,6 +87,10 @@ def alias_cases():
     add("glob-destination-with-brackets", base + [F("a.txt", 20, 31), F("b.txt", 30, 32), D("out[1]")], ["--glob", "a.txt", "b.txt", "out[1]"], ["a.txt", "b.txt"])
     add("glob-destination-matches-bystander", base + [F("src.txt", 20, 33), F("dst1", 30, 34)], ["--glob", "src.txt", "dst[1]"], ["src.txt", "dst1"])
     add("glob-destination-star", base + [F("one.txt", 20, 35), F("dst-keep-me", 30, 36), D("dst*")], ["--glob", "one.*", "dst*"], ["one.txt", "dst-keep-me"])
+    # two sources of one name: the first is a link whose text, seen from the destination, designates a bystander; the second a file
+    add("same-name-link-then-file-through-it", base + [D("s1"), L("s1/x", "../other/keep"), D("s2"), F("s2/x", 50, 61), D("dst")], ["s1/x", "s2/x", "dst"], ["other/keep", "s2/x"])
+    add("same-name-link-then-file-through-it-dirs", base + [D("s1"), D("s1/t"), L("s1/t/x", "../../other/keep"), D("s2"), D("s2/t"), F("s2/t/x", 50, 62), D("dst")],
+        ["-T", "s1", "s2", "dst"] if False else ["s1/t", "s2/t", "dst"], ["other/keep", "s2/t/x"], True)
     add("link-dot-slash", base + [F("f"), L("l", "f")], ["l", "./l"], ["l", "f"])
     add("link-in-T-respelled-dir", [D("d"), F("d/f"), L("d/l", "f"), D("other"), F("other/keep", 99, 13)], ["-T", "d", "./d"], ["d/f", "d/l"], True)
     add("two-sources-one-alias", base + [F("f"), D("dst"), L("dst/f", "../f")], ["other/keep", "f", "dst"], ["f", "other/keep"])
